@@ -410,7 +410,9 @@ func checkC16(r *core.Run, p *core.Program) {
 	if f := findFn(p, "cte", "EncoderEventReceiver.OnVersion"); f == nil {
 		r.Undecided("C16.sub-reset-order", "cte.EncoderEventReceiver.OnVersion")
 	} else {
-		ok := a.reaches(f.Obj, func(g *types.Func) bool { return g.Name() == "WriteLF" && recvNamed(g) != nil && recvNamed(g).Obj().Name() == "Writer" })
+		ok := a.reaches(f.Obj, func(g *types.Func) bool {
+			return g.Name() == "WriteLF" && recvNamed(g) != nil && recvNamed(g).Obj().Name() == "Writer"
+		})
 		r.Check("C16.sub-reset-order", "cte.EncoderEventReceiver.OnVersion|reaches WriteLF", f.Decl.Pos(), ok, "the document header no longer ends in a line feed written through Writer.WriteLF, which is what zeroes the writer's column for a reused encoder")
 	}
 	if tn := p.LookupType("cte", "arrayEncoderEngine"); tn != nil {
